@@ -62,7 +62,12 @@ type Net struct {
 	// kfake wrote (in request order per connection), after the fault decision.
 	OnRequest  func(connID int, key int16, frame []byte, act Action)
 	OnResponse func(connID int, key int16, frame []byte, delivered bool)
-	nconn      int
+	// MutateResponse, when set, may rewrite a complete response frame (correlation id onwards, without the
+	// size prefix) after kfake wrote it and before it is delivered to the client: the returned frame is what
+	// OnResponse observes and what the client receives (nil or an empty result = unchanged). kfake's own
+	// state is not affected: this is "the broker did X and the client is told Y".
+	MutateResponse func(connID int, key int16, frame []byte) []byte
+	nconn          int
 	conns      map[int]*Conn
 }
 
@@ -261,6 +266,13 @@ func (c *Conn) Write(p []byte) (int, error) {
 		if len(c.pend) > 0 {
 			pd = c.pend[0]
 			c.pend = c.pend[1:]
+		}
+		if c.n.MutateResponse != nil {
+			if m := c.n.MutateResponse(c.id, pd.key, frame[4:]); len(m) > 0 {
+				nf := make([]byte, 4, 4+len(m))
+				binary.BigEndian.PutUint32(nf, uint32(len(m)))
+				frame = append(nf, m...)
+			}
 		}
 		if c.n.OnResponse != nil {
 			c.n.OnResponse(c.id, pd.key, frame[4:], !pd.drop)
